@@ -76,9 +76,48 @@ def general_cases(tier, seed):
     return out
 
 
+def wire_pending_oracle(local, sc, cfg, hev, wire):
+    """back-pressure measured on the WIRE, not on the library's own counter: the bytes a pure producer has posted and MPI has not yet
+    completed (isend lines minus sendcomplete lines of the simulated wire) never exceed 2*capacity + one message when an async proceeds.
+    MPI-level completion precedes the library noticing it, so this quantity is <= m_pending_isend_bytes of a correct library."""
+    cap = cfg.cap
+    maxmsg = max([0] + [int(ev.f[1]) for ev in hev if ev.kind == "k:pk"])
+    out, size = {}, {}
+    events = sorted([(ev.t, 0, ev) for ev in hev if ev.kind in ("k:as+", "k:ex+", "k:ex-", "k:im+", "k:im-")] +
+                    [(i, 1, (kind, d)) for (i, kind, d) in wire if kind in ("isend", "sendcomplete")], key=lambda x: (x[0], x[1]))
+    depth, mask = {}, {}
+    for t, w, x in events:
+        if w == 1:
+            kind, d = x
+            r = int(d["r"])
+            if kind == "isend":
+                size[d["msg"]] = int(d["bytes"])
+                out[r] = out.get(r, 0) + int(d["bytes"])
+            else:
+                out[r] = out.get(r, 0) - size.pop(d.get("msg"), 0)
+            continue
+        ev = x
+        r = ev.r
+        if ev.kind == "k:ex+":
+            depth[r] = depth.get(r, 0) + 1
+        elif ev.kind == "k:ex-":
+            depth[r] = depth.get(r, 0) - 1
+        elif ev.kind == "k:im+":
+            mask[r] = 1
+        elif ev.kind == "k:im-":
+            mask[r] = 0
+        elif ev.kind == "k:as+" and not depth.get(r, 0) and not mask.get(r, 0):
+            if out.get(r, 0) > 2 * cap + maxmsg:
+                T.fail(local, f"async proceeded on producer rank {r} with {out.get(r, 0)} bytes posted and not completed on the wire > 2*{cap}+{maxmsg} "
+                              f"(the library's own counter says {ev.f[2]})", "no-backpressure-wire", sc, cfg, {"t": ev.t})
+                return
+
+
 def extra(local, sc, cfg, sr, hev, wire, out):
     ok, wu, wp = T.oracle_bytes(local, sc, cfg, hev, producers_only=getattr(sc, "producers", False))
     out["worst_unsent"], out["worst_pending"] = wu, wp
+    if ok and getattr(sc, "producers", False):
+        wire_pending_oracle(local, sc, cfg, hev, wire)
     agg = getattr(sc, "agg", None)
     if agg:
         sends = [(int(ev.f[0]), int(ev.f[1])) for ev in hev if ev.kind == "k:fsb" and ev.r == agg["sender"]]
